@@ -56,7 +56,7 @@ class GenCfg:
     p_ccond: float = 0.02
     p_b2n: float = 0.03
     p_call: float = 0.14
-    p_time: float = 0.04
+    p_time: float = 0.08
     p_pi: float = 0.02
     p_unary: float = 0.07
     p_bin: float = 0.40
@@ -234,11 +234,12 @@ def gen_num_expr(c: Ctx, vars_, depth: int, in_binop: bool = False):
 def gen_rel(c: Ctx, vars_, depth):
     ops = ["Lt", "Gt", "Le", "Ge"] + (["Eq"] if c.cfg.allow_eq else [])
     if vars_ and c.p(0.3):
-        # threshold comparison of a variable with a (possibly negative) literal
+        # threshold comparison of a variable (or of time) with a (possibly negative) literal
         lit = gen_num(c)
         if c.p(0.5):
             lit = ["neg", lit]
-        return ["rel", c.pick(ops), ["var", c.pick(vars_)], lit]
+        lhs = ["time", c.pick(["t", "time"])] if c.p(0.2) else ["var", c.pick(vars_)]
+        return ["rel", c.pick(ops), lhs, lit]
     return ["rel", c.pick(ops), gen_num_expr(c, vars_, depth), gen_num_expr(c, vars_, depth)]
 
 
@@ -267,6 +268,14 @@ def fix_constants(e):
     if not X.variables(e) and not X.uses_time(e):
         if not refsem.const_ok(e):
             return ["num", "2"]
+    if tag == "bin" and e[1] == "**" and not X.variables(e[2]) and not X.uses_time(e[2]):
+        # a negative constant raised to a non-constant power is complex valued: not a model
+        try:
+            negative = refsem.const_value(e[2]).val < 0
+        except refsem.RefError:
+            negative = False
+        if negative and (X.variables(e[3]) or X.uses_time(e[3])):
+            e = [e[0], e[1], ["call", "abs", e[2]], e[3]]
     if tag == "bin" and e[1] == "-" and e[2] == e[3]:
         # 'x - x' is a symbolic zero: dividing by it is no model
         e = [e[0], e[1], e[2], ["num", "2"]]
@@ -475,7 +484,7 @@ def boundary_pairs(model):
         for n in X.walk(a["expr"]):
             if n[0] == "rel":
                 for lhs, rhs in ((n[2], n[3]), (n[3], n[2])):
-                    if lhs[0] == "var":
+                    if lhs[0] in ("var", "time"):
                         try:
                             if rhs[0] == "num":
                                 out.append((lhs[1], float(rhs[1])))
@@ -491,7 +500,9 @@ def draw_point(draw, model, nonneg=False, t_strategy=None):
     bp = boundary_pairs(model)
     if bp and draw(st.integers(0, 3)) == 0:
         var, val = draw(st.sampled_from(bp))
-        if var in pt["states"]:
+        if var in ("t", "time"):
+            pt["t"] = val
+        elif var in pt["states"]:
             pt["states"][var] = val
         elif var in pt["params"]:
             pt["params"][var] = val
@@ -502,7 +513,7 @@ def _draw_point(draw, model, nonneg=False, t_strategy=None):
     vs = value_strategy(model, nonneg)
     dp = default_point(model)
     use_def = draw(st.integers(0, 3)) == 0
-    pt = {"t": draw(t_strategy if t_strategy is not None else st.sampled_from([0.0, 1.0, 0.5, 2.0, 10.0, -1.0, 0.25, 100.0])), "states": {}, "params": {}}
+    pt = {"t": draw(t_strategy if t_strategy is not None else st.sampled_from([0.0, 1.0, 0.5, 2.0, 10.0, -1.0, 0.25, 100.0, -2.5, -0.5, -10.0])), "states": {}, "params": {}}
     for s in model["states"]:
         pt["states"][s["name"]] = dp["states"][s["name"]] if use_def and draw(st.booleans()) else draw(vs)
     for p in model["params"]:
